@@ -55,25 +55,25 @@ Proof.
   apply (run_invariant adstep (fun c => In c (adreachable c0))); [intros c k; apply Hstep|assumption].
 Qed.
 
-Definition admit_statement (c0 : adcfg) : Prop := forall sched, admit_good (adrun sched c0) = true.
+Definition entry_statement (c0 : adcfg) : Prop := forall sched, entry_good (adrun sched c0) = true.
 
 (* the connection count taken inside the critical section of the test: max_connections holds under every schedule *)
-Theorem conn_count_locked_safe : admit_statement (conn_cfg true).
-Proof. unfold admit_statement. apply adreach_every_schedule; vm_compute; reflexivity. Qed.
+Theorem conn_count_locked_safe : entry_statement (conn_cfg true).
+Proof. unfold entry_statement. apply adreach_every_schedule; vm_compute; reflexivity. Qed.
 
 (* counted after the dial: all three callers pass the test *)
-Theorem conn_count_after_dial_refuted : ~ admit_statement (conn_cfg false).
+Theorem conn_count_after_dial_refuted : ~ entry_statement (conn_cfg false).
 Proof. intros H. specialize (H [0;0;0;1;1;1;0;1]%nat). vm_compute in H. discriminate. Qed.
 
 (* Requests: CanCreate and Increase are separate calls *)
-Theorem req_check_then_increase_refuted : ~ admit_statement req_cfg.
+Theorem req_check_then_increase_refuted : ~ entry_statement req_cfg.
 Proof. intros H. specialize (H [0;1;0;1]%nat). vm_compute in H. discriminate. Qed.
 
 (* partial: admissions that do not overlap (each caller runs to completion before the next starts) never overshoot *)
 Fixpoint serial (order : list nat) (steps : nat) : list nat :=
   match order with [] => [] | k :: r => repeat k steps ++ serial r steps end.
 Theorem req_serial_safe : forall a b c, (a < 3)%nat -> (b < 3)%nat -> (c < 3)%nat ->
-  admit_good (adrun (serial [a; b; c] 2) req_cfg) = true.
+  entry_good (adrun (serial [a; b; c] 2) req_cfg) = true.
 Proof.
   intros a b c Ha Hb Hc.
   destruct a as [|[|[|a]]]; [| | |lia]; destruct b as [|[|[|b]]]; try lia; destruct c as [|[|[|c]]]; try lia; vm_compute; reflexivity.
